@@ -26,6 +26,8 @@ type Case struct {
 	// Exported: the desired HCL is what atlas itself exports for B (inspect B created by our DDL,
 	// MarshalHCL) - the "inspect, edit, apply" workflow - instead of the HCL of our own writer.
 	Exported bool `json:"exported,omitempty"`
+	// View: the database also holds a view reading table t (an object this build does not manage).
+	View bool `json:"view,omitempty"`
 }
 
 func stateOf(names []string) squ.State {
@@ -48,6 +50,7 @@ type Result struct {
 	Rebuild   bool
 	NonEmpty  bool
 	TwoTables bool
+	ViewCase  bool
 }
 
 var indent = func(o *migrate.PlanOptions) { o.Indent = "  " }
@@ -77,6 +80,12 @@ func describeChanges(cs []schema.Change) string {
 func Eval(ctx context.Context, c Case) (res Result) {
 	bad := func(f string, a ...any) { res.Problems = append(res.Problems, fmt.Sprintf(f, a...)) }
 	A, B := stateOf(c.A).Build(), stateOf(c.B).Build()
+	res.ViewCase = c.View
+	defer func() {
+		if len(res.Problems) > 0 && res.Key == "" {
+			res.Key = classify(A, B, res)
+		}
+	}()
 	e, err := sqliteh.Open(ctx)
 	if err != nil {
 		bad("harness: %v", err)
@@ -86,6 +95,13 @@ func Eval(ctx context.Context, c Case) (res Result) {
 	if err := e.Exec(ctx, A.DDL(c.Spelling)...); err != nil {
 		res.Skipped = "engine rejects A: " + err.Error()
 		return
+	}
+	const viewDDL = "CREATE VIEW vt AS SELECT id FROM t"
+	if c.View {
+		if err := e.Exec(ctx, viewDDL); err != nil {
+			res.Skipped = "engine rejects the view on A: " + err.Error()
+			return
+		}
 	}
 	// reference: B created by our own DDL on a fresh engine.
 	ref, err := sqliteh.Open(ctx)
@@ -97,6 +113,12 @@ func Eval(ctx context.Context, c Case) (res Result) {
 	if err := ref.Exec(ctx, B.DDL(0)...); err != nil {
 		res.Skipped = "engine rejects B: " + err.Error()
 		return
+	}
+	if c.View {
+		if err := ref.Exec(ctx, viewDDL); err != nil {
+			res.Skipped = "engine rejects the view on B: " + err.Error()
+			return
+		}
 	}
 	defer func() {
 		if p := recover(); p != nil {
@@ -227,6 +249,15 @@ func lineDiff(want, got []string) string {
 
 // classify assigns a known-finding key by a predicate on the case (never "any failure").
 func classify(A, B *squ.DB, res Result) string {
+	if res.ViewCase && res.Rebuild {
+		all := true
+		for _, p := range res.Problems {
+			all = all && strings.Contains(p, "error in view vt")
+		}
+		if all {
+			return "table-read-by-a-view-cannot-be-rebuilt"
+		}
+	}
 	if pkOrderDiffers(A) || pkOrderDiffers(B) {
 		return "composite-pk-order-differs-from-column-order"
 	}
@@ -258,9 +289,15 @@ func pairs(tier string) []Case {
 	for _, a := range u1 {
 		for _, b := range u1 {
 			for sp := 0; sp < 2; sp++ {
-				cs = append(cs, Case{a.Names(), b.Names(), sp, false})
+				cs = append(cs, Case{A: a.Names(), B: b.Names(), Spelling: sp})
 			}
-			cs = append(cs, Case{a.Names(), b.Names(), 0, true})
+			cs = append(cs, Case{A: a.Names(), B: b.Names(), Exported: true})
+		}
+	}
+	// a view reading t sits in the database: every state reached from the skeleton and back.
+	for _, s := range u1 {
+		if len(s) == 1 {
+			cs = append(cs, Case{nil, s.Names(), 0, false, true}, Case{s.Names(), nil, 0, false, true})
 		}
 	}
 	u2 := squ.Universe(2)
@@ -270,7 +307,7 @@ func pairs(tier string) []Case {
 				if len(a) <= 1 && len(b) <= 1 {
 					continue
 				}
-				cs = append(cs, Case{a.Names(), b.Names(), (len(a) + len(b)) % 2, (len(a)+len(b))%3 == 1})
+				cs = append(cs, Case{A: a.Names(), B: b.Names(), Spelling: (len(a) + len(b)) % 2, Exported: (len(a)+len(b))%3 == 1})
 			}
 		}
 		return cs
@@ -282,17 +319,17 @@ func pairs(tier string) []Case {
 		}
 		for i := 0; i < 2; i++ {
 			sub := squ.State{s[i]}
-			cs = append(cs, Case{s.Names(), sub.Names(), 0, false}, Case{sub.Names(), s.Names(), 1, true})
+			cs = append(cs, Case{A: s.Names(), B: sub.Names()}, Case{A: sub.Names(), B: s.Names(), Spelling: 1, Exported: true})
 		}
 		// and against the bare skeleton: plans that change two things at once.
-		cs = append(cs, Case{nil, s.Names(), 0, true}, Case{s.Names(), nil, 1, false})
+		cs = append(cs, Case{B: s.Names(), Exported: true}, Case{A: s.Names(), Spelling: 1})
 	}
 	return cs
 }
 
 func Run(r *report.Run) {
 	ctx := context.Background()
-	r.Rule = "current database A created on a real in-memory SQLite engine by our own DDL writer (two spellings: table-level constraints / inline column constraints), desired schema B given as HCL from our own writer or as the HCL atlas itself exports for B (inspect + MarshalHCL: the inspect-edit-apply workflow); flow of `schema apply`: InspectRealm -> RealmDiff(DiffNormalized) -> ApplyChanges in a transaction -> re-inspect -> re-diff. quick: all ordered pairs of states with <=1 feature (x2 spellings) plus every 2-feature state against each of its 1-feature sub-states in both directions and against the bare skeleton; thorough: all ordered pairs of states with <=2 features. Features: " + fmt.Sprint(len(squ.Features)) + " elementary features over a 3-table skeleton. CLI slice: the real `atlas schema apply --auto-approve` on a database file (desired state as HCL file and as a live database), then `atlas schema diff` must print 'Schemas are synced', a second apply must be a no-op and the catalogue must equal B's (quick: every 1-feature state against the skeleton and its catalogue neighbour, both directions; thorough: all ordered pairs of <=1-feature states); non-trivial = pair with a non-empty plan; distinct = (A, B, spelling)"
+	r.Rule = "current database A created on a real in-memory SQLite engine by our own DDL writer (two spellings: table-level constraints / inline column constraints), desired schema B given as HCL from our own writer or as the HCL atlas itself exports for B (inspect + MarshalHCL: the inspect-edit-apply workflow); flow of `schema apply`: InspectRealm -> RealmDiff(DiffNormalized) -> ApplyChanges in a transaction -> re-inspect -> re-diff. a further dimension puts a view that reads t into the database (an object this build does not manage). quick: all ordered pairs of states with <=1 feature (x2 spellings) plus every 2-feature state against each of its 1-feature sub-states in both directions and against the bare skeleton; thorough: all ordered pairs of states with <=2 features. Features: " + fmt.Sprint(len(squ.Features)) + " elementary features over a 3-table skeleton. CLI slice: the real `atlas schema apply --auto-approve` on a database file (desired state as HCL file and as a live database), then `atlas schema diff` must print 'Schemas are synced', a second apply must be a no-op and the catalogue must equal B's (quick: every 1-feature state against the skeleton and its catalogue neighbour, both directions; thorough: all ordered pairs of <=1-feature states); non-trivial = pair with a non-empty plan; distinct = (A, B, spelling)"
 	r.Assumptions = []string{
 		"engine-invalid combinations (rejected by SQLite when created by our own DDL) are skipped and counted",
 		"independent oracle: the engine catalogue (pragma table_xinfo/index_list/index_xinfo/foreign_key_list + CHECK/generated texts) after A->B equals that of B created directly by our DDL; auto-index names and the origin of unique indexes (constraint vs CREATE INDEX) are normalised because atlas manages both as unique indexes",
@@ -302,7 +339,7 @@ func Run(r *report.Run) {
 	skipped, rebuild, alter, two := 0, 0, 0, 0
 	err := enum.ProcMap(len(cs), func(i int) Result { return Eval(ctx, cs[i]) }, func(i int, res Result) {
 		c := cs[i]
-		key := fmt.Sprintf("%v|%v|%d|%v", c.A, c.B, c.Spelling, c.Exported)
+		key := fmt.Sprintf("%v|%v|%d|%v|%v", c.A, c.B, c.Spelling, c.Exported, c.View)
 		r.Case(key, res.NonEmpty)
 		mu.Lock()
 		if res.Skipped != "" {
